@@ -870,7 +870,7 @@ type c09Outcome struct {
 	Keep   string   `json:"keep"` // "true" | "false" | "random" (rate > 1: a coin, not compared)
 	Reason string   `json:"reason"`
 	Key    string   `json:"key"`
-	Seen   []string `json:"seen,omitempty"` // diagnostics only: Go types the sampler was given, in arrival order
+	Seen   []string `json:"seen,omitempty"` // diagnostics only: Go types the sampler was given ("-": the payload says the field is not there), in arrival order
 	Panic  string   `json:"panic,omitempty"`
 }
 
@@ -927,7 +927,13 @@ func (e *c09Env) evaluate(v c09Vec, dataset string, enc c09Enc) (out c09Outcome,
 		}
 	}
 	for _, sp := range spans {
-		out.Seen = append(out.Seen, fmt.Sprintf("f:%T g:%T root:%v", sp.Data.Get("f"), sp.Data.Get("g"), sp.IsRoot))
+		ty := func(n string) string {
+			if !sp.Data.Exists(n) {
+				return "-"
+			}
+			return fmt.Sprintf("%T", sp.Data.Get(n))
+		}
+		out.Seen = append(out.Seen, fmt.Sprintf("f:%s g:%s root:%v", ty("f"), ty("g"), sp.IsRoot))
 	}
 	defer func() {
 		if r := recover(); r != nil {
